@@ -6,6 +6,7 @@ one record per method as a function of the operand shapes.  Properties_C13.v pro
 model makes exactly these calls, so changing a flag, a dimension or a leading dimension in the source changes the theorem.
 Anything outside the expected shape is reported as a problem, never guessed."""
 import os, re, sys
+SERVES = ("C13", "C18",)   # properties whose check reports this translator's problems (lib/gencoq.py, core.Check.proofs)
 sys.path.insert(0, os.path.join(os.path.dirname(os.path.dirname(os.path.abspath(__file__))), "lib"))
 import gencoq
 sys.path.insert(0, os.path.dirname(os.path.abspath(__file__)))
